@@ -118,3 +118,6 @@ fn verif_concat4(a: &str, b: &str, c: &str, d: &str) -> (r: String)
 fn verif_concat5(a: &str, b: &str, c: &str, d: &str, e: &str) -> (r: String)
     ensures r@ == a@ + b@ + c@ + d@ + e@
 { format!("{}{}{}{}{}", a, b, c, d, e) }
+// Display of Arc<str> is the string itself
+pub broadcast axiom fn axiom_to_string_arc_str(t: &std::sync::Arc<str>, r: String)
+    ensures #[trigger] to_string_from_display_ensures::<std::sync::Arc<str>>(t, r) <==> r@ == t@;
